@@ -70,7 +70,9 @@ func zzH_c16_gate_gm() {
 		}
 		return false
 	}
-	implemented := st.cipherSuite == GMTLS_SM2_WITH_SM4_SM3 || st.cipherSuite == GMTLS_ECDHE_SM2_WITH_SM4_SM3
+	// a suite this server can serve: the ECDHE-SM2 key agreement has no server side, so no session with it
+	// can have been established here and its tickets (from elsewhere) fall back to a full handshake
+	implemented := st.cipherSuite == GMTLS_SM2_WITH_SM4_SM3
 	has := len(st.certificates) != 0
 	need := cfg.ClientAuth == RequireAnyClientCert || cfg.ClientAuth == RequireAndVerifyClientCert
 	want := !cfg.SessionTicketsDisabled && zzRes.ticketOK && st.vers == VersionGMSSL &&
